@@ -192,6 +192,13 @@ def main() -> int:
     disagreements: list[dict] = []
     try:
         disagreements = plan(ctx)
+    except Exception:  # noqa: BLE001
+        import traceback
+
+        # the harness could not complete on this tree: the implementation behaved in a way the
+        # plan does not expect (a correspondence obligation that cannot even be evaluated)
+        disagreements = [{"family": "HARNESS", "what": "the check could not be completed on this tree", "traceback": traceback.format_exc()[-3000:],
+                          "property_violation": None, "signature": {}}]
     finally:
         ctx.driver.close()
 
